@@ -155,6 +155,14 @@ func c11KeyAgreement(c *Check) {
 						continue
 					}
 					as, _ := dp.Node().(*ast.AssignStmt)
+					if as != nil && len(as.Lhs) == len(as.Rhs) && len(as.Lhs) > 1 {
+						// parallel assignment `domain, err = "", nil`: the component for the key
+						for i, l := range as.Lhs {
+							if objOf(info, l) == types.Object(dom) {
+								as = &ast.AssignStmt{Lhs: []ast.Expr{l}, Tok: as.Tok, Rhs: []ast.Expr{as.Rhs[i]}}
+							}
+						}
+					}
 					switch {
 					case as == nil && isZeroStringDecl(info, dp.Node(), dom):
 						sawEmpty = true
